@@ -541,12 +541,13 @@ func (self *Value) SetByPath(sub Node, path ...Path) (exist bool, err error) {
 		return
 	}
 	isPacked := path[l-1].t == PathIndex && sub.t.IsPacked()
-	self.updateByteLen(originLen, address, isPacked, path...)
+	self.updateByteLen(originLen, address, isPacked, exist, path...)
 	return
 }
 
 // update parent node bytes length
-func (self *Value) updateByteLen(originLen int, address []int, isPacked bool, path ...Path) {
+// valueReplaced tells that the node at the last path existed and has been replaced by one of another length (SetByPath)
+func (self *Value) updateByteLen(originLen int, address []int, isPacked bool, valueReplaced bool, path ...Path) {
 	afterLen := self.l
 	diffLen := afterLen - originLen
 	previousType := proto.UNKNOWN
@@ -567,53 +568,90 @@ func (self *Value) updateByteLen(originLen int, address []int, isPacked bool, pa
 		if childType == proto.MESSAGE || (childType == proto.LIST && isPacked) {
 			// only the innermost list can be the packed one
 			isPacked = false
-			newBytes := NewBytesFromPool()
-			// tag
-			buf := rt.BytesFrom(rt.AddPtr(self.v, uintptr(addressPtr)), self.l-addressPtr, self.l-addressPtr)
-			_, tagOffset := protowire.ConsumeVarint(buf)
-			// length
-			length, lenOffset := protowire.ConsumeVarint(buf[tagOffset:])
-			newLength := int(length) + diffLen
-			newBytes = protowire.AppendVarint(newBytes, uint64(newLength))
 			// length == 0 means had been deleted all the data in the field
 			// NOTICE: a packed list without elements is dropped, but a message (field, list element or map value) is still present when it is empty
-			dropField := newLength == 0 && childType == proto.LIST
-			if dropField {
-				newBytes = newBytes[:0]
+			diffLen += self.updateRecordLen(addressPtr, diffLen, childType == proto.LIST)
+		}
+
+		// a map value (addressPtr is its tag) lies in a map entry, which has a byte length too: [PairTag][PairLen][Key][Value]
+		if previousType == proto.MAP && (childType != proto.UNKNOWN || valueReplaced) {
+			mapStart := 0
+			if i > 0 {
+				mapStart = address[i-1] // the map field's first entry
 			}
-
-			subLen := len(newBytes) - lenOffset
-
-			if subLen == 0 {
-				// no need to change length
-				copy(buf[tagOffset:tagOffset+lenOffset], newBytes)
-				continue
-			}
-
-			// split length
-			srcHead := rt.AddPtr(self.v, uintptr(addressPtr+tagOffset))
-			if dropField {
-				// delete tag
-				srcHead = rt.AddPtr(self.v, uintptr(addressPtr))
-				subLen -= tagOffset
-			}
-
-			srcTail := rt.AddPtr(self.v, uintptr(addressPtr+tagOffset+lenOffset))
-			l0 := int(uintptr(srcHead) - uintptr(self.v))
-			l1 := len(newBytes)
-			l2 := int(uintptr(self.v) + uintptr(self.l) - uintptr(srcTail))
-
-			// copy three slices into new buffer
-			newBuf := make([]byte, l0+l1+l2)
-			copy(newBuf[:l0], rt.BytesFrom(self.v, l0, l0))
-			copy(newBuf[l0:l0+l1], newBytes)
-			copy(newBuf[l0+l1:l0+l1+l2], rt.BytesFrom(srcTail, l2, l2))
-			self.v = rt.GetBytePtr(newBuf)
-			self.l = int(len(newBuf))
-			diffLen += subLen
-			FreeBytesToPool(newBytes)
+			entryPtr := searchEntry(self.raw(), mapStart, addressPtr)
+			diffLen += self.updateRecordLen(entryPtr, diffLen, false)
 		}
 	}
+}
+
+// updateRecordLen adds diffLen to the byte length of the record [Tag][Length][...] at addressPtr (if dropEmpty, a record
+// which becomes empty is removed) and returns how many bytes the length prefix (or the removed record) grew or shrank
+func (self *Value) updateRecordLen(addressPtr int, diffLen int, dropEmpty bool) int {
+	newBytes := NewBytesFromPool()
+	defer FreeBytesToPool(newBytes)
+	// tag
+	buf := rt.BytesFrom(rt.AddPtr(self.v, uintptr(addressPtr)), self.l-addressPtr, self.l-addressPtr)
+	_, tagOffset := protowire.ConsumeVarint(buf)
+	// length
+	length, lenOffset := protowire.ConsumeVarint(buf[tagOffset:])
+	newLength := int(length) + diffLen
+	newBytes = protowire.AppendVarint(newBytes, uint64(newLength))
+	dropField := newLength == 0 && dropEmpty
+	if dropField {
+		newBytes = newBytes[:0]
+	}
+
+	subLen := len(newBytes) - lenOffset
+
+	if subLen == 0 {
+		// no need to change length
+		copy(buf[tagOffset:tagOffset+lenOffset], newBytes)
+		return 0
+	}
+
+	// split length
+	srcHead := rt.AddPtr(self.v, uintptr(addressPtr+tagOffset))
+	if dropField {
+		// delete tag
+		srcHead = rt.AddPtr(self.v, uintptr(addressPtr))
+		subLen -= tagOffset
+	}
+
+	srcTail := rt.AddPtr(self.v, uintptr(addressPtr+tagOffset+lenOffset))
+	l0 := int(uintptr(srcHead) - uintptr(self.v))
+	l1 := len(newBytes)
+	l2 := int(uintptr(self.v) + uintptr(self.l) - uintptr(srcTail))
+
+	// copy three slices into new buffer
+	newBuf := make([]byte, l0+l1+l2)
+	copy(newBuf[:l0], rt.BytesFrom(self.v, l0, l0))
+	copy(newBuf[l0:l0+l1], newBytes)
+	copy(newBuf[l0+l1:l0+l1+l2], rt.BytesFrom(srcTail, l2, l2))
+	self.v = rt.GetBytePtr(newBuf)
+	self.l = int(len(newBuf))
+	return subLen
+}
+
+// searchEntry returns the position of the map entry that holds the byte at pos, start is the position of the map's first entry
+// NOTICE: the byte length of that entry may be out of date (pos is near its begin), the ones of the entries before are not
+func searchEntry(buf []byte, start int, pos int) int {
+	for start < len(buf) {
+		_, tagOffset := protowire.ConsumeVarint(buf[start:])
+		if tagOffset < 0 {
+			break
+		}
+		length, lenOffset := protowire.ConsumeVarint(buf[start+tagOffset:])
+		if lenOffset < 0 {
+			break
+		}
+		next := start + tagOffset + lenOffset + int(length)
+		if next > pos {
+			break
+		}
+		start = next
+	}
+	return start
 }
 
 // UnsetByPath searches longitudinally and unsets a sub value at the given path from the value.
@@ -661,7 +699,7 @@ func (self *Value) UnsetByPath(path ...Path) error {
 		return errValue(meta.ErrWrite, "replace node by empty node failed", err)
 	}
 	address = append(address, position) // must add one address align with path length
-	self.updateByteLen(originLen, address, isPacked, path...)
+	self.updateByteLen(originLen, address, isPacked, false, path...)
 	return nil
 }
 
@@ -1124,7 +1162,7 @@ func (self *Value) SetMany(pathes []PathNode, opts *Options, root *Value, addres
 		if self.t == proto.LIST && isPacked {
 			currentAdd := []int{0, -1}
 			currentPath := []Path{NewPathIndex(-1), NewPathIndex(-1)}
-			self.updateByteLen(originLen, currentAdd, isPacked, currentPath...)
+			self.updateByteLen(originLen, currentAdd, isPacked, false, currentPath...)
 		} else if self.t == proto.MESSAGE {
 			buf := self.raw()
 			_, lenOffset := protowire.ConsumeVarint(buf)
@@ -1143,7 +1181,7 @@ func (self *Value) SetMany(pathes []PathNode, opts *Options, root *Value, addres
 
 	// update root length
 	err = root.replaceMany(ps)
-	root.updateByteLen(rootLen, address, isPacked, path...)
+	root.updateByteLen(rootLen, address, isPacked, false, path...)
 ret:
 	ps.b = nil
 	pnsPool.Put(ps)
